@@ -31,6 +31,7 @@ func reasmConcEngine(prop string) *core.Engine[CPlan] {
 		Property:        prop,
 		Name:            "reasm-conc",
 		Gen:             GenCPlan,
+		GenFirst:        GenCPlanFirst,
 		Valid:           func(p *CPlan) bool { return p.Valid() },
 		Exec:            ExecCPlanFor(prop),
 		ProbeNames:      cProbeNames,
